@@ -59,8 +59,8 @@ func (t *ackTap) onWrite(e *connEnd, b []byte) {
 		if !bytes.Contains(fb, encodeCmd(op.Cmd.Args)) {
 			inbuf := bytes.Contains(t.inst.srv.aofbuf, encodeCmd(op.Cmd.Args))
 			w.violate(t.class+"/ack-before-file",
-				"reply %s to [%s] is being written to connection c%03d while the command is not in %s (file has %d bytes; command still in the in-memory buffer: %v; dirty flag: %v)",
-				v.String(), clipStr(op.Cmd.String(), 120), e.c.id, "appendonly.aof", len(fb), inbuf, t.inst.srv.aofdirty.Load())
+				"reply %s to [%s] is being written to connection %s while the command is not in %s (file has %d bytes; command still in the in-memory buffer: %v; dirty flag: %v)",
+				v.String(), clipStr(op.Cmd.String(), 120), e.c.name, "appendonly.aof", len(fb), inbuf, t.inst.srv.aofdirty.Load())
 		}
 	}
 }
